@@ -149,6 +149,12 @@ def run_item(item):
                 res["traces"] += 1
                 res["transitions"] += 2 * N
                 res["extra"]["runs"] += 1
+                # inverse-problem parameters are learnable whatever Python type their initial guess had: they move
+                for pk, pname, p0 in (("pinn_intparam", "K", 2.0), ("pinn_param", "D", 0.7)):
+                    if pk in kinds:
+                        val = float(getattr(w, pname).as_tensor.detach().reshape(-1)[0])
+                        if abs(val - p0) < 1e-9:
+                            viol("C07|parameter-not-trained|%s" % pname, "%s: the inverse-problem parameter %s still has its initial value %s after %d steps" % (cfg, pname, p0, N))
                 # a function set shared by several DeepONet conditions is drawn ONCE per training step (every condition of
                 # the step sees the same input functions), however many conditions use it
                 if any(k_.startswith("pideeponet_r") for k_ in kinds) and w.drift.calls != N:
